@@ -373,12 +373,19 @@ def recoverImage (img : Image) (size : Nat) (o : Opts) : Outcome :=
           match scan img1 v total o journal FEOX_DATA_START_BLOCK { fsm := f0 } with
           | .error e => .fail e io1
           | .ok st =>
-            match (if o.ttlOn then removeExpired o st else .ok st) with
+            -- with TTL on, the stale generations (and marker repairs) are retired in a journalled
+            -- call of their own *before* the expired winners are removed and retired
+            match (if o.ttlOn && !o.readOnly then retireExtentsIo p1 st.retired else .ok ([], p1)) with
             | .error e => .fail e io1
+            | .ok (ioA, pA) =>
+            let st := if o.ttlOn && !o.readOnly then { st with retired := [] } else st
+            match (if o.ttlOn then removeExpired o st else .ok st) with
+            | .error e => .fail e (io1 ++ ioA)
             | .ok st =>
-              match (if o.readOnly then .ok ([], p1) else retireExtentsIo p1 st.retired) with
-              | .error e => .fail e io1
-              | .ok (io2, p2) =>
+              match (if o.readOnly then .ok ([], pA) else retireExtentsIo pA st.retired) with
+              | .error e => .fail e (io1 ++ ioA)
+              | .ok (ioB, p2) =>
+                let io2 := ioA ++ ioB
                 match (if st.lastEnd < total then releaseFsm st.fsm st.lastEnd (total - st.lastEnd) else .ok st.fsm) with
                 | .error e => .fail e (io1 ++ io2)
                 | .ok f =>
